@@ -60,6 +60,11 @@ func (seg Segment) Raycast(point Point) RaycastResult {
 
 	// do the actual raycast here.
 	for p.Y == a.Y || p.Y == b.Y {
+		if math.IsInf(p.Y, 1) {
+			// level with an endpoint at +Inf: there is no float above it to
+			// nudge to, and nothing of the segment lies above the point
+			return RaycastResult{false, false}
+		}
 		p.Y = math.Nextafter(p.Y, math.Inf(1))
 	}
 	if a.Y < b.Y {
